@@ -321,7 +321,9 @@ Lemma shape_rules_multi n d m :
   out_shape (deriv_table DGradient) n d (Some m) = [n; m; d]
   /\ sprod (raw_shape (deriv_table DGradient) n d (Some m)) = sprod [n; m; d]
   /\ out_shape (deriv_table DHessian) n d (Some m) = [n; m; d; d]
-  /\ sprod (raw_shape (deriv_table DHessian) n d (Some m)) = sprod [n; m; d; d].
+  /\ sprod (raw_shape (deriv_table DHessian) n d (Some m)) = sprod [n; m; d; d]
+  /\ out_shape (deriv_table DHessLogDet) n d (Some m) = [n; m]
+  /\ sprod (tl (raw_shape (deriv_table DHessLogDet) n d (Some m))) = sprod [m; d; d].
 Proof. repeat split; first [reflexivity | cbn; lia | cbn; ring]. Qed.
 
 (* ------------------------------------------------------------------ Part 4: analytic content *)
